@@ -591,6 +591,18 @@ class Evaluator:
                         tg = [n.target]
                     elif isinstance(n, ast.NamedExpr):
                         tg = [n.target]
+                    if isinstance(n, ast.Assign) and len(tg) == 1 and isinstance(tg[0], ast.Name) and tg[0].id == name \
+                            and isinstance(n.value, ast.BinOp) and isinstance(n.value.op, ast.Add):
+                        # name = name + k  /  name = k + name  is the same step as  name += k
+                        l_, r_ = n.value.left, n.value.right
+                        for a_, b_ in ((l_, r_), (r_, l_)):
+                            if isinstance(a_, ast.Name) and a_.id == name and isinstance(b_, ast.Constant) \
+                                    and type(b_.value) is int and b_.value > 0:
+                                ok = True
+                                break
+                        else:
+                            return False
+                        continue
                     for t in tg:
                         for m in ast.walk(t):
                             if isinstance(m, ast.Name) and m.id == name:
@@ -1326,7 +1338,7 @@ class Evaluator:
             items = [e.left] + list(e.comparators)
 
             def mk(ts):
-                parts = [('cmp', CMPOPS[type(op)], ts[i], ts[i + 1]) for i, op in enumerate(e.ops)]
+                parts = [canon_cmp(CMPOPS[type(op)], ts[i], ts[i + 1]) for i, op in enumerate(e.ops)]
                 return parts[0] if len(parts) == 1 else ('and', tuple(parts))
             outs = []
             for t, s2, k in self._ev_n(items, st, mod, fi, depth, mk):
@@ -2156,6 +2168,28 @@ def _inplace_update_of(newv, argt, loops, depth=0):
             return bool(vals) and all(_inplace_update_of(v, head, loops, depth + 1) for v in vals)
         return False
     return False
+
+
+_CMP_MIRROR = {'<': '>', '>': '<', '<=': '>=', '>=': '<=', '==': '==', '!=': '!=', 'is': 'is', 'isnot': 'isnot'}
+
+
+def _cmp_key(t):
+    if is_c(t) or (t[0] == 'un' and t[1] == '-' and is_c(t[2])):
+        return (2, '')
+    if t[0] == 'bv' or (t[0] == 's' and '@' in t[1]):
+        return (1, show(t))
+    return (0, show(t))
+
+
+def canon_cmp(op, a, b):
+    """One orientation for every comparison, whichever way the source spells it: constants on the right, loop / bound
+    variables right of other operands, otherwise by the printed form.  `1 == x`, `x == 1`;  `n < len(v)`,
+    `len(v) > n` are the same term.  Rules build their expected comparisons with this function too."""
+    if op in _CMP_MIRROR:
+        ka, kb = _cmp_key(a), _cmp_key(b)
+        if ka > kb:
+            return ('cmp', _CMP_MIRROR[op], b, a)
+    return ('cmp', op, a, b)
 
 
 def _mk_attr(base, name):
